@@ -283,7 +283,8 @@ static PORT_N: AtomicU64 = AtomicU64::new(0);
 pub fn free_port() -> u16 {
     loop {
         let n = PORT_N.fetch_add(1, std::sync::atomic::Ordering::Relaxed);
-        let p = 20000 + ((std::process::id() as u64 * 131 + n * 7) % 28000) as u16;
+        // below the kernel's ephemeral range (32768..), so that port-0 client sockets never take it
+        let p = 10000 + ((std::process::id() as u64 * 131 + n * 7) % 22000) as u16;
         let u = UdpSocket::bind(("127.0.0.1", p));
         let t = std::net::TcpListener::bind(("127.0.0.1", p));
         if u.is_ok() && t.is_ok() {
